@@ -150,6 +150,32 @@ def write_replay(prop, payload):
     return os.path.relpath(path, VERIF_ROOT)
 
 
+class SearchTimeout(BaseException):
+    """Raised by the alarm that bounds the failing-input search (BaseException: the `except Exception` clauses with which
+    the correspondence modules classify the implementation's errors must not swallow it)."""
+
+
+def _reap_children():
+    """Worker processes a correspondence module forked for the interrupted search must not outlive it."""
+    try:
+        import multiprocessing
+        for ch in multiprocessing.active_children():
+            ch.terminate()
+    except Exception:  # noqa: BLE001
+        pass
+    try:
+        import subprocess
+        me = str(os.getpid())
+        out = subprocess.run(['pgrep', '-P', me], capture_output=True, text=True).stdout.split()
+        for pid in out:
+            try:
+                os.kill(int(pid), 15)
+            except Exception:  # noqa: BLE001
+                pass
+    except Exception:  # noqa: BLE001
+        pass
+
+
 def main(argv=None):
     ap = argparse.ArgumentParser()
     ap.add_argument('prop')
@@ -316,15 +342,37 @@ def _run(prop, tier, seed, args, t0):
         sctx.search_mode = True
         sctx.model_available = ctx.model_available
         sctx.focus = [d['case'] for d in ctx.disagreements + ctx.l2_disagreements]
+        # The search is bounded by what is left of the hard cap: a tie that no longer checks must end in a
+        # VIOLATION line (with the failing input found so far, or `no-failing-input-found`), never in a TIMEOUT.
+        import signal
+        cap = int(os.environ.get('HDV_CAP_S', '0') or 0) or (900 if tier == 'quick' else 3600)
+        left = int(cap - (time.time() - t0))
+        budget = max(0, left - max(60, cap // 10))
+        old_handler = signal.getsignal(signal.SIGALRM)
+
+        def _search_timeout(signum, frame):
+            raise SearchTimeout()
         try:
+            if budget < 10:
+                raise SearchTimeout()
+            signal.signal(signal.SIGALRM, _search_timeout)
+            signal.alarm(budget)
             with (contextlib.redirect_stdout(devnull) if quiet else contextlib.nullcontext()), \
                     (contextlib.redirect_stderr(devnull) if quiet else contextlib.nullcontext()):
                 if hasattr(mod, 'search'):
                     mod.search(sctx, broken)
                 else:
                     mod.run(sctx)
+        except SearchTimeout:
+            sctx.note(f'failing-input search stopped after its time budget ({budget}s of the {cap}s cap)')
+            ctx.note(f'failing-input search stopped after its time budget ({budget}s of the {cap}s cap)')
         except Exception:  # noqa: BLE001
             sctx.note('search crashed: ' + traceback.format_exc()[-1500:])
+        finally:
+            signal.alarm(0)
+            signal.signal(signal.SIGALRM, old_handler)
+            signal.alarm(max(30, int(cap - (time.time() - t0))))
+            _reap_children()
         for fl in sctx.failures:
             if not attribute(fl):
                 unknown.append(fl)
